@@ -182,7 +182,9 @@ def audit_scope(chk, prog, cg, roots, scope, tier, rid_s, rid_t, allow, boundary
                     # executed only inside it (helpers and closures every call chain to which passes through it), so that extracting the code
                     # into a helper of that function changes nothing
                     ctx_, _, own_ = rx[7:].partition('||')        # 'within:<context>||<pattern of the site's own function>'
-                    if kk == k and (dd == d or re.fullmatch(dd, d)) and (not own_ or re.search(own_, path)) and _only_within(cg, path, ctx_, set(roots)):
+                    # own pattern '!ctx': any function executed only inside the context except the context function itself
+                    own_ok = (not own_) or (own_ == '!ctx' and not (re.search(ctx_, short(path)) or re.search(ctx_, path))) or (own_ != '!ctx' and re.search(own_, path))
+                    if kk == k and (dd == d or re.fullmatch(dd, d)) and own_ok and _only_within(cg, path, ctx_, set(roots)):
                         hit = ('D3', reason)
                     continue
                 if (re.search(rx, short(path)) or re.search(rx, path)) and kk == k and (dd == d or re.fullmatch(dd, d)):
